@@ -677,3 +677,147 @@ fn malicious(ctx: &mut Ctx, w: &mut HWorld<X>, kind: u32, victim: usize, touched
         _ => {}
     }
 }
+
+// ---------------------------------------------------------------------------------------------
+// C13, bypass semantics: with the packet filter on and the peer's IP banned, the peer's datagrams
+// pass only while this node is waiting for something from that address.
+
+pub fn run_bypass(ctx: &mut Ctx) {
+    block_on(ctx, |ctx| Box::pin(bypass_async(ctx)));
+}
+
+async fn bypass_async(ctx: &mut Ctx) {
+    let mut w: HWorld<X> = HWorld::new(u64::MAX / 4);
+    for i in 0..2 {
+        let mut c = NodeCfg::new(8 + i + 8 * ctx.tape.choose(4) as usize);
+        c.request_timeout_ms = *ctx.tape.pick(&[500u64, 1000]);
+        c.request_retries = 1 + ctx.tape.choose(2) as u8;
+        c.packet_filter = i == 0;
+        w.add_node(c).await;
+    }
+    // the peer's IP is banned (permanently or for long) at the victim - the list is process-global
+    let mut list = discv5::verif::permit_ban_snapshot();
+    let perm = ctx.tape.choose(2) == 0;
+    list.ban_ips.insert(w.nodes[1].addr.ip(), if perm { None } else { Some(std::time::Instant::now() + std::time::Duration::from_secs(100_000)) });
+    discv5::verif::permit_ban_set(list);
+    w.profile.jitter_ms = *ctx.tape.pick(&[0u32, 2]);
+    let rounds = 1 + ctx.tape.choose(3);
+    ctx.ev(format!("cfg bypass rounds={rounds} permanent_ban={perm} timeout={}ms", w.nodes[0].cfg.request_timeout_ms));
+    ctx.fault("peer_ip_banned");
+    // script: [V asks P (must work thanks to the exemption)] then [P asks V unsolicited (must be dropped)], repeated
+    let gap = 4 * (w.nodes[0].cfg.request_timeout_ms.max(w.nodes[1].cfg.request_timeout_ms)) * 3;
+    let mut at = 0u64;
+    let mut script: Vec<(u64, usize, usize)> = vec![];
+    for _ in 0..rounds {
+        script.push((at, 0, 1));
+        at += gap;
+        script.push((at, 1, 0));
+        at += gap;
+    }
+    for (t, node, peer) in &script {
+        let with_enr = ctx.tape.choose(3) != 0;
+        w.schedule(*t, Ev::Custom(X::Submit { node: *node, peer: *peer, with_enr, body: RequestBody::Ping { enr_seq: 1 } }));
+    }
+    w.horizon_ms = at + 1000;
+    let mut next_rid = 1u64;
+    let mut outcome: BTreeMap<u64, (usize, String)> = BTreeMap::new();
+    let mut victim_outputs_in_quiet_phase = 0u32;
+    // phases: even index = V asks (exemption expected), odd = P asks (nothing outstanding at V)
+    let phase_of = |t: u64| -> usize { (t / gap) as usize };
+    loop {
+        if ctx.failed() {
+            break;
+        }
+        let obs = w.next().await;
+        w.absorb_keys();
+        match obs {
+            Obs::Horizon => break,
+            Obs::Datagram { from, out } => {
+                let wi = w.tap(ctx, from, &out);
+                if from == 0 && phase_of(now_ms()) % 2 == 1 {
+                    // the victim must stay silent towards the banned peer while nothing is outstanding
+                    ctx.fail("c13.banned-peer-answered-without-outstanding-exchange", format!("the victim emitted {} to the banned peer at {}ms although it was not waiting for anything from it", HWorld::<X>::describe(&w.wire[wi].dec), now_ms()), &[]);
+                }
+                w.route(ctx, wi);
+            }
+            Obs::Sched(Ev::Deliver { to, src, bytes, origin }) => w.deliver(to, src, bytes, origin),
+            Obs::Sched(Ev::Custom(x)) => match x {
+                X::Submit { node, peer, with_enr, body } => {
+                    let id = next_rid;
+                    next_rid += 1;
+                    ctx.ev(format!("t={} n{node} submit r{id} -> n{peer} enr={with_enr}", now_ms()));
+                    outcome.insert(id, (node, String::new()));
+                    let contact = w.contact(peer, with_enr);
+                    w.send_in(node, HandlerIn::Request(contact, Box::new(Request { id: rid(id), body })));
+                }
+                X::AppWhoAreYou { node, wref, enr } => {
+                    w.send_in(node, HandlerIn::WhoAreYou(wref, enr));
+                }
+                X::AppRespond { node, to, resp } => {
+                    w.send_in(node, HandlerIn::Response(to, Box::new(resp)));
+                }
+                _ => {}
+            },
+            Obs::Out { node, ev } => {
+                let t = now_ms();
+                if node == 0 && phase_of(t) % 2 == 1 && !matches!(ev, HandlerOut::ExpiredSessions(_)) {
+                    victim_outputs_in_quiet_phase += 1;
+                    ctx.fail("c13.banned-peer-datagram-passed-filter", format!("at {t}ms the victim's handler reacted to a datagram of the banned peer ({}) although nothing was outstanding", out_name(&ev)), &[]);
+                    break;
+                }
+                match ev {
+                    HandlerOut::WhoAreYou(wref) => {
+                        let enr = w.known_record(&wref.0.node_id);
+                        w.schedule(0, Ev::Custom(X::AppWhoAreYou { node, wref, enr }));
+                    }
+                    HandlerOut::Request(from, req) => {
+                        for resp in w.default_response(node, &from, &req, 1) {
+                            w.schedule(0, Ev::Custom(X::AppRespond { node, to: from.clone(), resp }));
+                        }
+                    }
+                    HandlerOut::Response(_, r) => {
+                        ctx.ev(format!("t={t} n{node} out Response r{}", rid_num(&r.id)));
+                        if let Some(o) = outcome.get_mut(&rid_num(&r.id)) {
+                            o.1 = "response".into();
+                        }
+                    }
+                    HandlerOut::RequestFailed(id, e) => {
+                        ctx.ev(format!("t={t} n{node} out RequestFailed r{} {e:?}", rid_num(&id)));
+                        if let Some(o) = outcome.get_mut(&rid_num(&id)) {
+                            o.1 = format!("failed {e:?}");
+                        }
+                    }
+                    _ => {}
+                }
+            }
+        }
+    }
+    if !ctx.failed() {
+        for (id, (node, o)) in &outcome {
+            ctx.count("bypass_requests_checked");
+            if *node == 0 && o != "response" {
+                ctx.fail("c13.expected-response-filtered", format!("request r{id} of the victim to the banned peer ended as '{o}': the peer's answers must pass the filter while the victim waits for them"), &[]);
+                break;
+            }
+            if *node == 1 && o == "response" {
+                ctx.fail("c13.banned-peer-datagram-passed-filter", format!("request r{id} of the banned peer was answered by the victim although the victim was not waiting for anything from it"), &[]);
+                break;
+            }
+        }
+    }
+    let _ = victim_outputs_in_quiet_phase;
+    w.shutdown();
+}
+
+fn out_name(ev: &HandlerOut) -> &'static str {
+    match ev {
+        HandlerOut::Established(..) => "Established",
+        HandlerOut::Request(..) => "Request",
+        HandlerOut::Response(..) => "Response",
+        HandlerOut::WhoAreYou(..) => "WhoAreYou",
+        HandlerOut::RequestFailed(..) => "RequestFailed",
+        HandlerOut::UnverifiableEnr { .. } => "UnverifiableEnr",
+        HandlerOut::UnrecognizedFrame(..) => "UnrecognizedFrame",
+        HandlerOut::ExpiredSessions(..) => "ExpiredSessions",
+    }
+}
